@@ -150,7 +150,10 @@ def corpus ():
     CORPUS_PATHS[name] = path
 
   pay = pattern(18)
-  u4 = lambda d, sp=1234, dp=4321: r_udp(d, sp, dp, ph4(17))
+  u4 = lambda d, sp=1234, dp=4321, src=A1, dst=A2: r_udp(d, sp, dp, ph4(17, src, dst))
+  def iu4 (d, sp=1234, dp=4321, src=A1, dst=A2, **kw):      # IPv4 datagram carrying a UDP datagram
+    return r_ipv4(u4(d, sp, dp, src, dst), 17, src=src, dst=dst, **kw)
+  eu4 = lambda *a, **kw: r_eth(iu4(*a, **kw), 0x0800)
   u6 = lambda d, sp=1234, dp=4321: r_udp(d, sp, dp, ph6(17))
   e4 = lambda seg, proto, **kw: r_eth(r_ipv4(seg, proto, **kw), 0x0800)
   e6 = lambda seg, nh, **kw: r_eth(r_ipv6(seg, nh, **kw), 0x86dd)
@@ -220,15 +223,15 @@ def corpus ():
   add("igmp_v2_report", e4(r_igmp(b'\x16\x00', ip4("239.1.2.3")), 2, dst=ip4("239.1.2.3"), ttl=1), "ethernet/ipv4/igmp(v2 report)")
   add("igmp_v3_report", e4(r_igmp(b'\x22\x00', struct.pack("!HH", 0, 1) + struct.pack("!BBH", 4, 0, 0) + ip4("239.1.2.3")),
                            2, dst=ip4("224.0.0.22"), ttl=1, options=b'\x94\x04\x00\x00'), "ethernet/ipv4/igmp(v3 report)")
-  inner4 = r_ipv4(u4(pay), 17, src=ip4("192.168.0.1"), dst=ip4("192.168.0.2"))
+  inner4 = iu4(pay, src=ip4("192.168.0.1"), dst=ip4("192.168.0.2"))
   add("gre_ipv4", e4(gre_hdr(0x0800, payload=inner4), 47), "ethernet/ipv4/gre/ipv4/udp")
   add("gre_csum_key_seq_eth", e4(gre_hdr(0x6558, csum=True, key=0xdeadbeef, seq=7, payload=r_eth(inner4, 0x0800)), 47),
       "ethernet/ipv4/gre(csum,key,seq)/ethernet/ipv4/udp")
   add("gre_routing", e4(gre_hdr(0x88b5, routing=struct.pack("!HBB", 0x0800, 0, 4) + A2 + b'\0\0\0\0', payload=pay), 47),
       "ethernet/ipv4/gre(routing)/raw")
   # UDP applications
-  add("dhcp_discover", e4(u4(dhcp_msg(1, b'\x35\x01\x01\x37\x04\x01\x03\x06\x0f\x3d\x07\x01' + M1 + b'\x0c\x02h1\xff',
-                                      flags=0x8000), 68, 67), 17, src=ip4("0.0.0.0"), dst=ip4("255.255.255.255")),
+  add("dhcp_discover", eu4(dhcp_msg(1, b'\x35\x01\x01\x37\x04\x01\x03\x06\x0f\x3d\x07\x01' + M1 + b'\x0c\x02h1\xff',
+                                    flags=0x8000), 68, 67, src=ip4("0.0.0.0"), dst=ip4("255.255.255.255")),
       "ethernet/ipv4/udp/dhcp(request)")
   add("dhcp_offer", e4(u4(dhcp_msg(2, b'\x35\x01\x02\x01\x04\xff\xff\xff\x00\x03\x04' + A1 + b'\x06\x08' + A1 + A2
                                    + b'\x33\x04\x00\x00\x0e\x10\x36\x04' + A1 + b'\x3a\x04\x00\x00\x07\x08'
@@ -243,12 +246,12 @@ def corpus ():
                             + rr(ptr, 5, b'\x03web' + b'\xc0\x10') + rr(b'\x03web\xc0\x10', 1, A1)
                             + rr(ptr, 16, b'\x05hello') + rr(b'\xc0\x10', 2, b'\x02ns\xc0\x10')
                             + rr(b'\x02ns\xc0\x10', 28, S2), 53, 40000), 17), "ethernet/ipv4/udp/dns(response, compression)")
-  add("mdns_query", e4(u4(struct.pack("!HHHHHH", 0, 0, 1, 0, 0, 0) + dns_name("_http._tcp.local") + struct.pack("!HH", 12, 1),
-                          5353, 5353), 17, dst=ip4("224.0.0.251"), ttl=255), "ethernet/ipv4/udp/dns(mdns)")
+  add("mdns_query", eu4(struct.pack("!HHHHHH", 0, 0, 1, 0, 0, 0) + dns_name("_http._tcp.local") + struct.pack("!HH", 12, 1),
+                        5353, 5353, dst=ip4("224.0.0.251"), ttl=255), "ethernet/ipv4/udp/dns(mdns)")
   rip_e = lambda a, m, nh, metric: struct.pack("!HH", 2, 0) + a + m + nh + struct.pack("!I", metric)
-  add("rip_response", e4(u4(struct.pack("!BBH", 2, 2, 0) + rip_e(ip4("10.1.0.0"), ip4("255.255.0.0"), ip4("0.0.0.0"), 1)
-                            + rip_e(ip4("192.168.7.0"), ip4("255.255.255.0"), A1, 16), 520, 520), 17,
-                         dst=ip4("224.0.0.9"), ttl=1), "ethernet/ipv4/udp/rip")
+  add("rip_response", eu4(struct.pack("!BBH", 2, 2, 0) + rip_e(ip4("10.1.0.0"), ip4("255.255.0.0"), ip4("0.0.0.0"), 1)
+                          + rip_e(ip4("192.168.7.0"), ip4("255.255.255.0"), A1, 16), 520, 520,
+                          dst=ip4("224.0.0.9"), ttl=1), "ethernet/ipv4/udp/rip")
   add("vxlan", e4(u4(struct.pack("!II", 0x08000000, 0x123456 << 8) + r_eth(inner4, 0x0800), 49152, 4789), 17),
       "ethernet/ipv4/udp/vxlan/ethernet/ipv4/udp")
 
